@@ -145,7 +145,7 @@ def run_os(case, ctx):
                         attached.append(w)
                         pool.attach(w)
                         nonthread += 1
-                    elif s_ in ('run', 'restart') and stuck:
+                    elif s_ in ('run', 'restart', 'linger_die:process') and stuck:
                         continue      # a worker that never answers and never dies is outside the premise of run(); restart would wait for it
                     elif s_ == 'restart' and lingering:
                         continue      # restart() of a worker whose process does not exit is C17's business
